@@ -92,6 +92,17 @@ class Svc(Service):
         CAP['args'] = (a,)
         return Ignored('debug', a)
 
+    @rpc(Integer, _returns=[Point, Point])
+    def same2(ctx, a):
+        CAP['args'] = (a,)
+        p = Point(x=a, y=a, label=u'p')
+        return p, p                      # the same object in both positions
+
+    @rpc(Integer, _returns=Array(Point))
+    def arr2(ctx, a):
+        CAP['args'] = (a,)
+        return [Point(x=a, y=1, label=u'q')] * 2
+
     @rpc(Integer, Integer, _returns=Integer)
     def div(ctx, a, b):
         CAP['args'] = (a, b)
@@ -161,7 +172,7 @@ def _same_point(sx, p, q):
 FUNCS = ['spyne.server.null._FunctionCall.__call__', 'spyne.server.null._cb_sync',
          'spyne.application.Application.process_request', 'spyne.server._base.ServerBase.get_out_object',
          'spyne.protocol.dictdoc.hier.HierDictDocument.serialize', 'spyne.protocol.dictdoc.hier.HierDictDocument.deserialize']
-METHODS = ['show', 'first', 'two', 'two-ignored', 'nothing', 'noargs', 'outbare', 'bare', 'gen', 'boom', 'ign', 'ign_outbare', 'div']
+METHODS = ['show', 'first', 'two', 'two-ignored', 'nothing', 'noargs', 'outbare', 'bare', 'gen', 'boom', 'ign', 'ign_outbare', 'div', 'same2', 'arr2']
 
 
 @harness('C18', params=METHODS, functions=FUNCS,
@@ -184,7 +195,7 @@ def null_vs_wire(sx, m):
         pos, kw, body = (a, s, flag), dict(i=a, s=s, b=flag), {'i': a, 's': s, 'b': flag}
     elif m in ('first', 'div'):
         pos, kw, body = (a, b), dict(a=a, b=b), {'a': a, 'b': b}
-    elif m in ('two', 'two-ignored', 'nothing', 'outbare', 'gen', 'ign', 'ign_outbare'):
+    elif m in ('two', 'two-ignored', 'nothing', 'outbare', 'gen', 'ign', 'ign_outbare', 'same2', 'arr2'):
         pos, kw, body = (a,), dict(a=a), {'a': a}
     elif m == 'noargs':
         pos, kw, body = (), {}, {}
@@ -214,6 +225,16 @@ def null_vs_wire(sx, m):
         if isinstance(direct, (list, tuple)) and len(direct) == 2 and isinstance(doc, dict):
             ok += [sx.eq(direct[0], doc.get('twoResult0')), sx.eq(direct[1], doc.get('twoResult1')),
                    sx.eq(direct[0], a)]
+    elif m in ('same2', 'arr2'):
+        # a result that references one object twice is delivered twice, directly and on the wire
+        pts = list(direct) if isinstance(direct, (list, tuple)) else None
+        docs = [doc.get('same2Result0'), doc.get('same2Result1')] if (m == 'same2' and isinstance(doc, dict)) else doc
+        if pts is None or len(pts) != 2 or not isinstance(docs, list) or len(docs) != 2:
+            return False
+        for pt, d in zip(pts, docs):
+            if not isinstance(pt, Point) or not isinstance(d, dict):
+                return False
+            ok += [sx.eq(pt.x, d.get('x')), sx.eq(pt.y, d.get('y')), sx.eq(pt.label, d.get('label')), sx.eq(pt.x, a)]
     elif m == 'gen':
         ok.append(isinstance(doc, list) and len(doc) == len(direct))
         if isinstance(doc, list) and len(doc) == len(direct):
